@@ -284,3 +284,53 @@ func SugarVariants(g *Grammar) []*Grammar {
 	}
 	return out
 }
+
+// SugarPairs returns every grammar obtained from g by sugaring exactly two
+// plain terms that name the same symbol (the helper rules lox generates for
+// them are found by name, so these are the terms whose helpers can be shared
+// or confused): each of the two gets any of x? x* x+ x*! @list(x,t) @list(x,t)?
+// with t any token of g.
+func SugarPairs(g *Grammar) []*Grammar {
+	type pos struct{ r, a, t int }
+	var ps []pos
+	for ri := range g.Rules {
+		for ai := range g.Rules[ri].Alts {
+			for ti, t := range g.Rules[ri].Alts[ai].Terms {
+				if t.S == Plain && t.X.K != ERR {
+					ps = append(ps, pos{ri, ai, ti})
+				}
+			}
+		}
+	}
+	type sugar struct {
+		k   int
+		sep Sym
+	}
+	var kinds []sugar
+	for _, k := range []int{Opt, Star, Plus, StarF} {
+		kinds = append(kinds, sugar{k: k})
+	}
+	for i := range g.Toks {
+		kinds = append(kinds, sugar{List, Sym{K: T, I: i}}, sugar{ListOpt, Sym{K: T, I: i}})
+	}
+	var out []*Grammar
+	for i := 0; i < len(ps); i++ {
+		for j := i + 1; j < len(ps); j++ {
+			a, b := ps[i], ps[j]
+			if g.Rules[a.r].Alts[a.a].Terms[a.t].X != g.Rules[b.r].Alts[b.a].Terms[b.t].X {
+				continue
+			}
+			for _, ka := range kinds {
+				for _, kb := range kinds {
+					c := g.Clone()
+					c.Rules[a.r].Alts[a.a].Terms[a.t].S = ka.k
+					c.Rules[a.r].Alts[a.a].Terms[a.t].Sep = ka.sep
+					c.Rules[b.r].Alts[b.a].Terms[b.t].S = kb.k
+					c.Rules[b.r].Alts[b.a].Terms[b.t].Sep = kb.sep
+					out = append(out, c)
+				}
+			}
+		}
+	}
+	return out
+}
